@@ -281,6 +281,10 @@ class Prover:
                 ks = sorted({k for (S_, k) in arms if S_ == e.src and k not in seen})
             else:
                 continue
+            if e.label[0] == "otherwise" and len(ks) == 1:
+                ec = self.an.edge_cond.get(d)
+                if ec is not None and ec[0] == "switch":
+                    self.decompose_eq(ec[1], ks[0], ec[3], out)
             ins = [x for k in ks for x in arms.get((e.src, k), [])]
             if not ins or (e.src, tuple(ks)) in busy:
                 continue
@@ -573,23 +577,17 @@ def compute_threads(an):
     tm, arms, complete = {}, {}, set()
     cfg = an.cfg
 
+    headers = set(cfg.natural_loops())
+
     def straight(a, b):
-        """from block a every path runs through single-successor, single-entry blocks to block b"""
-        cur = a
-        for _ in range(12):
-            if cur == b:
-                return True
-            outs = cfg.out_edges[cur]
-            if len(outs) != 1:
-                return False
-            cur = outs[0].dst
-            if cur != b and len(cfg.in_edges[cur]) != 1:
-                return False
-            if cur == b:
-                return len(cfg.in_edges[cur]) == 1 or True
-        return False
+        """the value joined at block a is still the one seen at block b, and what held on the way into a still holds at
+        b: a dominates b and a is not a loop header (then no definition that dominates an incoming edge of a can be
+        re-executed between a and b without passing a again)"""
+        return a not in headers and cfg.dominates(a, b)
 
     def kind(v, boolneg):
+        if boolneg == "int":
+            return v[1] if v[0] == "const" and isinstance(v[1], int) else None
         if boolneg is not None:
             cb = _const_bool(an, v)
             return None if cb is None else (int(not cb) if boolneg else int(cb))
@@ -632,6 +630,8 @@ def compute_threads(an):
                 tracked, boolneg = D[1], True
             else:
                 tracked, boolneg = D, False
+        elif D[0] == "phi":
+            tracked, boolneg = D, "int"     # a small integer chosen per branch and dispatched on right after
         if tracked is None or tracked[0] != "phi" or tracked[2][0] != "local":
             continue
         J = tracked[1]
